@@ -63,6 +63,8 @@ type World struct {
 	Cmds           int
 	LettersSeen    []byte
 	Migrated       bool // a migration from the DaemonSet old-ds was declared at the start
+	RetryFaulted   bool // reconciles that met a failing API call are retried one second later (as a work queue does)
+	retrying       bool
 	FaultsInjected int
 	Facts          map[string]int
 	CloseSyncs     int // replica-set syncs requested less than reconcileFrequency after the previous one
@@ -162,6 +164,18 @@ func (w *World) addMigration() {
 			mk(fmt.Sprintf("m%02d-a-owned", i), n.Name, "old-ds", "old-ds-uid")
 			mk(fmt.Sprintf("m%02d-z-otherds", i), n.Name, "other-ds", "other-ds-uid")
 		}
+	}
+	// the namesake DaemonSet of another namespace has pods of its own (same labels, owner of the same name):
+	// the migration exception is limited to the ExtendedDaemonSet's own namespace
+	for i, n := range w.C.Nodes() {
+		if i > 1 {
+			break
+		}
+		p := &corev1.Pod{ObjectMeta: metav1.ObjectMeta{Namespace: "ns3", Name: fmt.Sprintf("unrelated-namesake-ds-%d", i), Labels: map[string]string{"app": "agent"},
+			OwnerReferences: []metav1.OwnerReference{{APIVersion: "apps/v1", Kind: "DaemonSet", Name: "old-ds", UID: "namesake-uid", Controller: &ctrl}}},
+			Spec: corev1.PodSpec{NodeName: n.Name, Containers: []corev1.Container{{Name: "agent", Image: "old:1"}}}, Status: corev1.PodStatus{Phase: corev1.PodRunning}}
+		w.C.Add(p)
+		w.C.Start(p.Namespace, p.Name)
 	}
 	w.Facts["migration-declared"]++
 	w.C.Tracef("migration from DaemonSet old-ds declared (pods m*-owned are its own; m*-otherds / m*-bare carry the same labels but are not)")
@@ -292,6 +306,22 @@ func (w *World) reconcile(actor, ns, name string) *sim.Record {
 		}
 	}
 	w.check(r, w.H)
+	if w.RetryFaulted && !w.retrying {
+		// a reconcile that met a failing call is retried at once by the work queue (well inside reconcileFrequency)
+		faulted := r.Err != nil
+		for _, c := range r.Calls {
+			if c.Fault != sim.FaultNone {
+				faulted = true
+			}
+		}
+		if faulted {
+			w.retrying = true
+			w.C.Advance(time.Second)
+			w.C.Tracef("(retry of the reconcile that met a failure)")
+			w.reconcile(actor, ns, name)
+			w.retrying = false
+		}
+	}
 	return r
 }
 
